@@ -6,7 +6,9 @@ import (
 	"crypto/x509"
 	"encoding/binary"
 	"encoding/pem"
+	"errors"
 	"fmt"
+	"io"
 	"go/ast"
 	"go/parser"
 	"go/token"
@@ -41,6 +43,11 @@ func TestMain(m *testing.M) {
 	sandbox.MaybeWorker()
 	os.Exit(m.Run())
 }
+
+// failingReader always fails with an error that is not io.EOF.
+type failingReader struct{}
+
+func (failingReader) Read([]byte) (int, error) { return 0, errors.New("c14: injected read failure") }
 
 type raw []byte
 
@@ -238,6 +245,27 @@ func init() {
 			}
 			return 1, nil
 		},
+		// decoders that take an io.Reader, fed by a reader that fails with a non-EOF error after k bytes
+		// (input = 2 bytes little-endian k, then the data; k is taken modulo len(data)+1)
+		"reader_fault": func(in []byte) (int, error) {
+			if len(in) < 2 {
+				return 0, errors.New("short")
+			}
+			data := in[2:]
+			k := (int(in[0]) | int(in[1])<<8) % (len(data) + 1)
+			mk := func() io.Reader { return io.MultiReader(bytes.NewReader(data[:k]), failingReader{}) }
+			stage := 0
+			if _, err := device.ParseDevicePath(mk()); err == nil {
+				stage = 1
+			}
+			signature.ReadSignatureDatabase(mk())
+			signature.ReadSignatureList(mk())
+			signature.ReadEFIVariableAuthencation2(mk())
+			signature.ReadWinCertificate(mk())
+			signature.GetSupportedSignatures(mk())
+			util.ReadNullString(mk())
+			return stage, nil
+		},
 		"testfs_write": func(in []byte) (int, error) {
 			var firstErr error
 			for _, v := range []efivar.Efivar{efivar.PK, efivar.KEK, efivar.Db, efivar.Dbx} {
@@ -317,11 +345,27 @@ func validFor(t *rapid.T, entry string) []byte {
 		default:
 			return append(attrs, util.MarshalUtf16Var(gen.UnicodeString(12).Draw(t, "s"))...)
 		}
-	case "readkey":
+	case "readkey", "readcert":
+		// one or several PEM blocks in any order (a combined key + certificate file), with text around them
 		k, _ := x509.MarshalPKCS8PrivateKey(gen.Keys()[rapid.IntRange(0, 1).Draw(t, "k")])
-		return pemOf("PRIVATE KEY", k)
-	case "readcert":
-		return pemOf("CERTIFICATE", gen.FixedIdents()[0].Cert.Raw)
+		blocks := [][]byte{pemOf("PRIVATE KEY", k), pemOf("CERTIFICATE", gen.FixedIdents()[0].Cert.Raw), pemOf("CERTIFICATE", gen.FixedIdents()[1].Cert.Raw), pemOf("X509 CRL", []byte{1, 2, 3}), []byte("some text\n"), []byte("-----BEGIN CERTIFICATE-----\nnot base64\n-----END CERTIFICATE-----\n")}
+		var out []byte
+		if entry == "readkey" {
+			out = append(out, blocks[0]...)
+		} else {
+			out = append(out, blocks[1]...)
+		}
+		if rapid.Bool().Draw(t, "multiblock") {
+			out = nil
+			for i := rapid.IntRange(1, 4).Draw(t, "nblocks"); i > 0; i-- {
+				out = append(out, blocks[rapid.IntRange(0, len(blocks)-1).Draw(t, "block")]...)
+			}
+		}
+		return out
+	case "reader_fault":
+		data := validFor(t, rapid.SampledFrom([]string{"devicepath", "devicepath", "sigdb", "descriptor", "wincert", "utf16"}).Draw(t, "rfkind"))
+		k := rapid.IntRange(0, len(data)).Draw(t, "failafter")
+		return append([]byte{byte(k), byte(k >> 8)}, data...)
 	case "guid":
 		return []byte(gen.GUID().Draw(t, "g").Text())
 	case "testfs_write":
